@@ -5,7 +5,7 @@ datum.MakeBuckets, Buckets.Observe (first bucket with v <= Max; Count++; Sum += 
 and GetBucketsCumByMax, against the statement: exported bounds = declared bounds
 plus +Inf, each observation in the first declared bound >= value (NaN and values
 above every bound in +Inf), bucket counts sum to Count, Sum is the IEEE sum.  TLC
-explores every sorted declaration over {-2,-1,0,1,2,4} and every sequence of
+explores every sorted declaration over {-2,-1.5,-1,0,0.5,1,2} and every sequence of
 values just below / at / just above each boundary, far below, -Inf, +Inf, NaN, and
 prints every maximal behaviour; the Go harness (internal/verif/c21) runs each one
 through the real compiler, VM and datum, one log line per observation.
@@ -20,7 +20,7 @@ import vlib
 LEVEL = "model_checking"
 META = {
     "text": "TLC exhausts spec/Buckets.tla (codegen range construction, MakeBuckets, Observe, cumulative export) for every sorted "
-            "declaration of 2-4 boundaries from {-2,-1,0,1,2,4} and every sequence of 3 (thorough 4) observations drawn from the "
+            "declaration of 2-4 boundaries from {-2,-1.5,-1,0,0.5,1,2} and every sequence of 3 (thorough 4) observations drawn from the "
             "values half a unit below / at / above each boundary, far below, -Inf, +Inf and NaN; every behaviour is replayed through "
             "the real compiler and VM (`histogram h by k buckets ...; h[$1] = float($2)`), comparing bucket bounds, per-bucket "
             "counts, Count and Sum after every line, then GetBucketsCumByMax, JSON and a sample of Prometheus expositions.",
@@ -31,7 +31,7 @@ META = {
 DEVS = ["DEV_FirstBoundDroppedWhenNotPositive", "DEV_NaNInNoBucket"]
 INVS = ["TypeOK", "BoundsExported", "RightBucket", "CountsSum", "SumOK", "CumOK", "Emit"]
 # TLC's cfg syntax has no negative numbers: the boundary candidates live in a generated MC module
-MC = {"MCBuckets.tla": "---- MODULE MCBuckets ----\nEXTENDS Buckets\nMCBounds == {-2, -1, 0, 1, 2, 4}\n====\n"}
+MC = {"MCBuckets.tla": "---- MODULE MCBuckets ----\nEXTENDS Buckets\nMCBounds == {-4, -3, -2, 0, 1, 2, 4}\n====\n"}
 
 
 def cfg(mindecl, maxdecl, maxobs, devs=(), emit=True, invs=INVS, props=True):
@@ -48,8 +48,8 @@ def key(c):
 
 def nontrivial(c):
     # an observation exactly on a boundary, a special value, or below a non-positive first boundary
-    bs = {2 * b for b in c["decl"]}
-    return any(o in bs or o in (-1000, 1000, 9999) or (c["decl"][0] <= 0 and o <= 2 * c["decl"][0]) for o in c["obs"])
+    bs = set(c["decl"])
+    return any(o in bs or o in (-1000, 1000, 9999) or (c["decl"][0] <= 0 and o <= c["decl"][0]) for o in c["obs"])
 
 
 def stage(ctx, binary, name, mindecl, maxdecl, maxobs, devs, seen, explained):
